@@ -3,6 +3,8 @@ package props
 import (
 	"bytes"
 	"fmt"
+	"os"
+	"path/filepath"
 	"strings"
 	"sync"
 	"testing"
@@ -444,6 +446,8 @@ type c06History struct {
 	Files     int          `json:"files"`
 	Recs      []hx.RecSpec `json:"recs"`
 	PlainLens []int        `json:"plainLens"`
+	// CLI: every file is written by a separate run of the age command (native and SSH recipients only)
+	CLI bool `json:"cli,omitempty"`
 }
 
 func c06CheckHistory(c c06History, st *stats.Run) error {
@@ -458,11 +462,32 @@ func c06CheckHistory(c c06History, st *stats.Run) error {
 		seen[k] = where
 		return nil
 	}
-	st.Case(c.Files >= 2, stats.HashJSON(c), "history:mix="+hx.KindsOf(c.Recs), fmt.Sprintf("history:files=%d", min(c.Files, 10)/5*5))
+	st.Case(c.Files >= 2, stats.HashJSON(c), fmt.Sprintf("history:through-the-command=%v", c.CLI), "history:mix="+hx.KindsOf(c.Recs), fmt.Sprintf("history:files=%d", min(c.Files, 10)/5*5))
 	st.Sample("history", c)
 	for f := 0; f < c.Files; f++ {
 		plain := hx.PRG(uint64(f), c.PlainLens[f%len(c.PlainLens)])
-		file, err := encryptLib(recs, plain, nil, false)
+		var file []byte
+		var err error
+		if c.CLI {
+			bin := os.Getenv("VERIF_BIN")
+			if bin == "" {
+				return nil
+			}
+			var args []string
+			for _, r := range c.Recs {
+				args = append(args, "-r", c01RecipientString(p, r))
+			}
+			code, out, stderr := runCLI(".", []string{"PATH=/nonexistent", "HOME=/nonexistent"}, plain, filepath.Join(bin, "age"), args...)
+			if code == -2 {
+				return nil
+			}
+			if code != 0 {
+				err = fmt.Errorf("age exited %d: %s", code, stderr)
+			}
+			file = []byte(out)
+		} else {
+			file, err = encryptLib(recs, plain, nil, false)
+		}
 		if err != nil {
 			return pbt.Failf("C06/encrypt-failed", "encryption failed: %v", err)
 		}
@@ -831,6 +856,13 @@ func TestC06(t *testing.T) {
 	// the CLI's autogenerated passphrase words (cmd/age/wordlist.go), in-package
 	overlayCheck(s, "C06", "cli-random-word", "TestVerifOverlayC06", s.N(20000, 50000))
 
+	pbt.Each(s, "history", func(yield func(c06History)) {
+		if s.Shard == 0 {
+			yield(c06History{Files: 12, Recs: []hx.RecSpec{{Kind: "x25519", Idx: 0}, {Kind: "ed25519", Idx: 0}, {Kind: "x25519", Idx: 0}}, PlainLens: []int{10}, CLI: true})
+			yield(c06History{Files: 6, Recs: []hx.RecSpec{{Kind: "rsa", Idx: 0}, {Kind: "x25519", Idx: 1}}, PlainLens: []int{0, chunk + 1}, CLI: true})
+			s.St.Exhaust("histories of 12 and 6 files written by separate runs of the age command to the same recipients", 2)
+		}
+	}, func(c c06History) error { return c06CheckHistory(c, s.St) })
 	pbt.Each(s, "concurrent-history", func(yield func(c06Conc)) {
 		for _, recs := range [][]hx.RecSpec{{{Kind: "x25519", Idx: 0}}, {{Kind: "ed25519", Idx: 0}, {Kind: "x25519", Idx: 1}}, {{Kind: "scrypt", Pass: "pw", WF: 1}}, {{Kind: "rsa", Idx: 0}, {Kind: "rsa", Idx: 0}}} {
 			for rep := 0; rep < s.N(3, 10); rep++ {
